@@ -55,6 +55,30 @@ theorem query_independent (h h' : List Op) (q : Op) (hsets : h.filter isSet = h'
     (run wb fuel (ExecState.init sizes) (h' ++ [q])).2.getLast? := by
   rw [last_output wb fuel sizes h q hv, last_output wb fuel sizes h' q hv', specOut_queries_irrelevant wb fuel sizes h h' hsets]
 
+theorem accepted_append (a b : List OpA) : accepted (a ++ b) = accepted a ++ accepted b := by
+  induction a with
+  | nil => rfl
+  | cons x xs ih => cases x <;> simp [accepted, ih]
+
+theorem validOps_query (q : Op) (hq : isSet q = false) : ValidOps sizes [q] := by
+  intro u hu
+  cases q <;> simp [allWriteUids, isSet] at hu hq
+
+/-- **Purity / order independence for the public API, without a side condition**: two histories of API calls - `set_cells`
+    with addresses as the caller writes them (accepted or rejected, anywhere), queries of any kind, any number, any order -
+    whose ACCEPTED set-cells batches agree give the same answer to the same query.  In particular a rejected call, like a
+    query, changes no later answer. -/
+theorem query_independent_calls (titles : List (List Char)) (h h' : List Call) (q : Op) (hq : isSet q = false)
+    (hsets : (accepted (h.map (compileCall titles sizes.length))).filter isSet =
+      (accepted (h'.map (compileCall titles sizes.length))).filter isSet) :
+    (answers (runA wb fuel (ExecState.init sizes) (h.map (compileCall titles sizes.length) ++ [.op q])).2).getLast? =
+    (answers (runA wb fuel (ExecState.init sizes) (h'.map (compileCall titles sizes.length) ++ [.op q])).2).getLast? := by
+  rw [(runA_accepted wb fuel _ _).2, (runA_accepted wb fuel _ _).2, accepted_append, accepted_append]
+  simp only [accepted]
+  exact query_independent wb fuel sizes _ _ q hsets
+    ((validOps_append sizes _ _).2 ⟨compiled_valid sizes titles h, validOps_query sizes q hq⟩)
+    ((validOps_append sizes _ _).2 ⟨compiled_valid sizes titles h', validOps_query sizes q hq⟩)
+
 /-- repeating a query returns the same value -/
 theorem query_repeatable (h : List Op) (u : Uid) (hv : ValidOps sizes h) :
     (run wb fuel (ExecState.init sizes) (h ++ [.get u] ++ [.get u])).2.getLast? =
